@@ -163,13 +163,23 @@ def _parse_nat_list(s: str) -> list[int]:
 
 def run_case_shards(workdir: Path, name: str, header: str, case_type: str, check_fn: str,
                     terms: list[str], shard: int = 250, extra_q=(), timeout: int = 900,
-                    jobs: int | None = None) -> tuple[list[int], list[int], list[str]]:
+                    jobs: int | None = None, weights: list[int] | None = None) -> tuple[list[int], list[int], list[str]]:
     """Write the cases in shards `name_k.v`, compile them in parallel, and return
-    (indices failing correspondence, indices failing the spec oracle, error texts)."""
+    (indices failing correspondence, indices failing the spec oracle, error texts).
+    `weights` (default 1 each): a shard holds consecutive cases of total weight <= `shard`."""
     files = []
-    for k in range(0, len(terms), shard):
-        chunk = terms[k:k + shard]
-        f = workdir / f"{name}_{k // shard}.v"
+    bounds, start, load = [], 0, 0
+    for i in range(len(terms)):
+        wgt = weights[i] if weights else 1
+        if i > start and load + wgt > shard:
+            bounds.append((start, i))
+            start, load = i, 0
+        load += wgt
+    if terms:
+        bounds.append((start, len(terms)))
+    for n, (k, e) in enumerate(bounds):
+        chunk = terms[k:e]
+        f = workdir / f"{name}_{n}.v"
         body = ";\n".join(chunk)
         f.write_text(
             f"From A816 Require Import Base.Prelude.\n{header}\nOpen Scope Z_scope.\n"
